@@ -1759,6 +1759,13 @@ pub fn c19(ctx: &mut Ctx, tier: &str, _seed: u64) {
                             && PartialOrd::partial_cmp(pa, rb) == ord && PartialOrd::partial_cmp(rb, pa) == rev
                             && PartialOrd::partial_cmp(&xa, rb) == ord && PartialOrd::partial_cmp(rb, &xa) == rev
                             && PartialOrd::partial_cmp(ra, pb) == ord && PartialOrd::partial_cmp(ra, &xb) == ord
+                            // … nor does moving both sides into an owned, boxed, counted or copy-on-write value
+                            && PartialOrd::partial_cmp(&xa, &xb) == ord && (xa == xb) == eq && Some(Ord::cmp(&xa, &xb)) == ord && Some(Ord::cmp(pa, pb)) == ord
+                            && PartialOrd::partial_cmp(&Box::<$P>::from(pa), &Box::<$P>::from(pb)) == ord
+                            && PartialOrd::partial_cmp(&Rc::<$P>::from(pa), &Rc::<$P>::from(pb)) == ord
+                            && PartialOrd::partial_cmp(&Arc::<$P>::from(pa), &Arc::<$P>::from(pb)) == ord
+                            && PartialOrd::partial_cmp(&Cow::Borrowed(pa), &Cow::<$P>::Owned(xb.clone())) == ord
+                            && (Box::<$P>::from(pa) == Box::<$P>::from(pb)) == eq
                     }};
                 }
                 let mut ok = raw_vs!(UnixPath, UnixPathBuf, a.as_slice(), b.as_slice(), [u8]) && raw_vs!(WindowsPath, WindowsPathBuf, a.as_slice(), b.as_slice(), [u8]);
